@@ -802,6 +802,26 @@ Fixpoint check_calls_safe (fw : list (nat * N * N * bool)) (c : nat) (l : list o
   | oc :: r => check_call_safe fw c oc && check_calls_safe fw (S c) r
   end.
 
+(* VALUE clauses (proved of every model run: C09_oracle_sound_values): a caller -- of a plain /
+   forwarding call or of a multi_call -- only ever sees a value the scenario designated for THAT
+   request (all designated values are distinct, so this is the no-cross-wiring clause) *)
+Fixpoint check_values_calls (ops : list op) (c : nat) (l : list ocall) : bool :=
+  match l with
+  | [] => true
+  | oc :: r => (match oc_res oc with OSuccess v => mem_N v (designated ops c) | _ => true end)
+               && check_values_calls ops (S c) r
+  end.
+
+Definition check_values_group (ops : list op) (g : gres * list nat) : bool :=
+  match g with
+  | (GOk rs _, ids) =>
+      forallb (fun x => match x with (c, OSuccess v) => mem_N v (designated ops c) | _ => true end) (combine ids rs)
+  | _ => true
+  end.
+
+Definition check_C09_values (ops : list op) (o : obs) : bool :=
+  check_values_calls ops 0 (o_calls o) && forallb (check_values_group ops) (o_groups o).
+
 Definition check_C09_safety (o : obs) : bool := check_calls_safe (o_fwds o) 0 (o_calls o).
 
 Fixpoint check_calls (ops : list op) (pts : list N) (alive : list bool) (fw : list (nat * N * N * bool))
